@@ -306,6 +306,29 @@ theorem C10_idem_top_partial2 {c : HdrCfg} {info : Extracted} {t hdr b : Text} (
   have := C10_idem_fresh_partial2 hs he hcom hfresh h1 hno htex hinfo (C10_nothing_above_top c _) hrepro n
   simpa using this
 
+/-- `C10_idem_partial2` at the level of the file (`add_header_to_file`): an LF file and its CRLF form — both runs
+    write the same characters (through `C08_line_endings_lf` / `_crlf`) -/
+theorem C10_idem_text_partial2 {c : HdrCfg} {info : Extracted} {t a hdr b : Text} (hs : c.style ∈ Generated.styles)
+    (he : c.style.isEmptyStyle = false) (hcom : c.commented = false)
+    (h1 : firstRunParts c info t = some (a, hdr, b)) (hno : NoExoticBreaks hdr)
+    (hb : multiMode c.style c.forceMulti = true ∨ b = [] ∨ ∃ r, b = '\n' :: r)
+    (htex : startsWith hdr "% !TEX".toList = false)
+    (hinfo : containsReuseInfo c.parses hdr = true)
+    (habove : nothingAbove c a (hdr ++ '\n' :: b) = true)
+    (hrepro : createHeader c info (hdr ++ ['\n']) = .ok hdr)
+    (hcr : NoCR t) (hcr' : NoCR (a ++ hdr ++ ['\n'] ++ b)) :
+    (annotateText c true false info t = .written (a ++ hdr ++ ['\n'] ++ b) ∧
+     annotateText c true false info (a ++ hdr ++ ['\n'] ++ b) = .written (a ++ hdr ++ ['\n'] ++ b)) ∧
+    ('\n' ∈ t →
+      annotateText c true false info (toCRLF t) = .written (toCRLF (a ++ hdr ++ ['\n'] ++ b)) ∧
+      annotateText c true false info (toCRLF (a ++ hdr ++ ['\n'] ++ b)) = .written (toCRLF (a ++ hdr ++ ['\n'] ++ b))) := by
+  have h2 := C10_second_run_ok hs he hcom h1 hno hb htex hinfo habove hrepro
+  exact ⟨C10_idem_text_partial h1 h2 hcr hcr', fun hlf => C10_idem_crlf_partial h1 h2 hcr hlf hcr'⟩
+
+/-- a style of the table: the C style's block for a three-line text -/
+example : ∃ s ∈ Generated.styles, s.name = "CCommentStyle" ∧
+    okComment (createMulti s "a\n\nb".toList) "/*\n * a\n *\n * b\n */".toList = true := by decide +kernel
+
 /-- **The `.license` pseudo style** (`--force-dot-license`, files without a comment style), the property's case: the
     `.license` file holds no REUSE information before.  The run writes the header and its line end, nothing else
     (`a = ""`, `b = ""`); for this style the whole text is the block, so the second run finds `hdr ++ "\n"` at the
